@@ -338,12 +338,38 @@ class RealRunner:
           es.append({'trial': tid, 'active': e.status == vizier_oss_pb2.EarlyStoppingOperation.Status.ACTIVE, 'stop': bool(e.should_stop)})
         h['es'] = es
         studies.append(h)
-    return canon_db({'owners': owners_present, 'studies': studies})
+    out = canon_db({'owners': owners_present, 'studies': studies})
+    orphans = self.orphan_rows()
+    if orphans:
+      # rows the API cannot show (their study row is gone) but that come back as trials / operations of a study
+      # created later under the same name: part of the stored state, present in no state of the model
+      out['orphan_rows'] = orphans
+    return out
+
+  def orphan_rows(self):
+    """SQL datastores: rows of the child tables whose study row does not exist (read through the datastore's own
+    connection, under its lock)."""
+    ds = self.ds
+    con, lock = getattr(ds, '_connection', None), getattr(ds, '_lock', None)
+    if con is None or lock is None:
+      return {}
+    import sqlalchemy as sqla
+    out = {}
+    with lock:
+      for table in ('trials', 'suggestion_operations', 'early_stopping_operations'):
+        n = con.execute(sqla.text(
+            'SELECT count(*) FROM %s c WHERE NOT EXISTS (SELECT 1 FROM studies s WHERE s.owner_id = c.owner_id '
+            'AND s.study_id = c.study_id)' % table)).fetchone()[0]
+        if n:
+          out[table] = int(n)
+    return out
 
 
 def canon_db(db):
   """Order-insensitive where the API is (owners set, operation tables); order-preserving for studies/trials."""
   out = {'owners': sorted(db['owners']), 'studies': []}
+  if db.get('orphan_rows'):
+    out['orphan_rows'] = db['orphan_rows']
   for s in db['studies']:
     s = dict(s)
     s['ops'] = sorted(s.get('ops', []), key=lambda o: (o['client'], o['num']))
